@@ -50,7 +50,7 @@ var _ Backend = &LocalBackend{}
 
 func (s *LocalBackend) Upload(ctx context.Context, key string, data []byte, opts *UploadOptions) (err error) {
 	defer prometheus.NewTimer(s.duration.WithLabelValues("upload")).ObserveDuration()
-	name, err := filepath.Localize(key)
+	name, err := localize(key)
 	if err != nil {
 		return fmtErrorf("failed to localize key %q as a filesystem path: %w", key, err)
 	}
@@ -91,7 +91,7 @@ func (s *LocalBackend) Upload(ctx context.Context, key string, data []byte, opts
 
 func (s *LocalBackend) Fetch(ctx context.Context, key string) ([]byte, error) {
 	defer prometheus.NewTimer(s.duration.WithLabelValues("fetch")).ObserveDuration()
-	name, err := filepath.Localize(key)
+	name, err := localize(key)
 	if err != nil {
 		return nil, fmtErrorf("failed to localize key %q as a filesystem path: %w", key, err)
 	}
@@ -102,7 +102,7 @@ func (s *LocalBackend) Fetch(ctx context.Context, key string) ([]byte, error) {
 
 func (s *LocalBackend) Discard(ctx context.Context, key string) error {
 	defer prometheus.NewTimer(s.duration.WithLabelValues("discard")).ObserveDuration()
-	name, err := filepath.Localize(key)
+	name, err := localize(key)
 	if err != nil {
 		return fmtErrorf("failed to localize key %q as a filesystem path: %w", key, err)
 	}
@@ -121,6 +121,15 @@ func (s *LocalBackend) Discard(ctx context.Context, key string) error {
 
 func (s *LocalBackend) Metrics() []prometheus.Collector {
 	return s.metrics
+}
+
+// localize maps a key to a path strictly inside the backend directory.
+func localize(key string) (string, error) {
+	name, err := filepath.Localize(key)
+	if err == nil && name == "." {
+		err = errors.New("key names the backend directory itself")
+	}
+	return name, err
 }
 
 func compareFile(f *os.File, data []byte) error {
